@@ -35,6 +35,26 @@ func c02Check(in []byte, m *stun.Message) (outcome, key, detail string) {
 			var k2, d2 string
 			if _, k2, d2 = c02Check1(in, m); k2 != "" {
 				key, detail = k2+"/reused-message", "after the Message held another message: "+d2
+				return
+			}
+			// the other decode entry points, each on a Message that has just held another datagram (one per input,
+			// rotating; all four for inputs of at most 24 bytes)
+			for e := 1; e <= 4; e++ {
+				if len(in) > 24 && e != 1+len(in)%4 {
+					continue
+				}
+				m.Raw = append(make([]byte, 0, len(in)+len(c01Big)), c01Big...)
+				if err := m.Decode(); err != nil {
+					key, detail = "harness", "priming message does not decode"
+					return
+				}
+				c02Entry = e
+				_, k2, d2 = c02Check1(in, m)
+				c02Entry = 0
+				if k2 != "" {
+					key, detail = k2+"/reused-message/"+c02EntryNames[e], "through "+c02EntryNames[e]+" after the Message held another message: "+d2
+					return
+				}
 			}
 		}
 	}); p != "" {
@@ -43,10 +63,27 @@ func c02Check(in []byte, m *stun.Message) (outcome, key, detail string) {
 	return
 }
 
+// c02Entry selects the decode entry point of c02Check1 (0: Message.Decode on Raw = input).
+var c02Entry int
+
+var c02EntryNames = []string{"Message.Decode", "ReadFrom", "Write", "Decode(data,m)", "UnmarshalBinary"}
+
 func c02Check1(in []byte, m *stun.Message) (outcome, key, detail string) {
 	want, why := ref.Parse(in)
-	m.Raw = in
-	err := m.Decode()
+	var err error
+	switch c02Entry {
+	case 0:
+		m.Raw = in
+		err = m.Decode()
+	case 1:
+		_, err = m.ReadFrom(&udpReader{d: in})
+	case 2:
+		_, err = m.Write(in)
+	case 3:
+		err = stun.Decode(in, m)
+	case 4:
+		err = m.UnmarshalBinary(in)
+	}
 	if (err == nil) != (want != nil) {
 		if want == nil {
 			return "", "accepts-nonconforming/" + why, fmt.Sprintf("Decode accepted bytes the RFC framing rejects (%s): %x", why, clip(in))
@@ -188,6 +225,7 @@ func init() {
 			sweepTinyBodies(c, ba, visit)
 			sweepLarge(c, visit)
 			sweepTypes(c, visit)
+			sweepShort(c, visit)
 			// all 65536 message type words in front of a fixed two-attribute body
 			body := ref.Encode(0, [12]byte{1, 2, 3, 4, 5, 6, 7, 8, 9, 10, 11, 12}, []ref.EncodeAttr{{Type: 0x8020, Value: []byte{1, 2, 3}}, {Type: 0x0020, Value: []byte{9}}})
 			in := &decodeInput{Fam: "typeword"}
